@@ -54,7 +54,7 @@ func ndTables(rows int, accept bool) []*Table {
 	}
 	// w(a Int|NULL, l [Int]): a list-valued column for UNNEST queries (0..2 symbolic elements)
 	w := &Table{Name: "w", Cols: []string{"a", "l"}, Types: []octosql.Type{nullableInt, {TypeID: octosql.TypeIDList, List: struct{ Element *octosql.Type }{Element: &octosql.Int}}}, AcceptPushdown: accept}
-	if zzverif.Param("WTABLE") == 1 {
+	if zzverif.ParamOr("WTABLE", 0) == 1 {
 		for i, r := range vx.NDTable("w", rows, 1) {
 			n := zzverif.Choice(fmt.Sprintf("w.r%d.len", i), 3)
 			elems := make([]octosql.Value, n)
